@@ -483,8 +483,8 @@ theorem l2_complete_withdrawal {s s' : Life2.St} {u i x y : Nat} {act : Life2.Ac
   simp [Life2.setAct]; omega
 
 example : (Life2.run (Life2.init 10000 5000 100)
-    [.create 0 0 0 2000 300 false 500000, .price 0, .exec .keeper 0 0 0 0 true false 600 0, .close (.user 0) 0 0 0,
-     .create 0 1 0 100 0 false 0, .exec .keeper 0 1 0 0 true false 333 50]).1.recLong = 1667 := by decide
+    [.create 0 0 0 2000 300 false 500000 0, .price 0, .exec .keeper 0 0 0 0 true false 600 0, .close (.user 0) 0 0 0,
+     .create 0 1 0 100 0 false 0 0, .exec .keeper 0 1 0 0 true false 333 50]).1.recLong = 1667 := by decide
 
 end Life2
 
